@@ -293,6 +293,22 @@ func init() {
 			}
 			pcs = append(pcs, baseCase("c14-type-collisions", M{"type": "object", "properties": props}, []any{doc}, fmt.Sprintf("n=%d", n)))
 		}
+		// TITLES on nested object members that normalise to the name of an enclosing type (root, parent, grandparent), with
+		// and without --struct-name-from-title: every object keeps a type of its own
+		for ti, titles := range [][]string{{"root", "Root org", "root_org_unit"}, {"Root", "root", "ROOT"}, {"root org", "root", "Root"}, {"org", "unit", "leaf"}} {
+			for _, fromTitle := range []bool{true, false} {
+				leaf := M{"type": "object", "title": titles[2], "properties": M{"k": M{"type": "integer"}}, "required": []any{"k"}}
+				unit := M{"type": "object", "title": titles[1], "properties": M{"unit": leaf, "n": M{"type": "string"}}}
+				schema := M{"type": "object", "title": "Root", "properties": M{"org": unit, "spouse": M{"type": "object", "title": titles[0], "properties": M{"since": M{"type": "string"}}}}}
+				doc := M{"org": M{"unit": M{"k": 7}, "n": "x"}, "spouse": M{"since": "y"}}
+				pc := baseCase("c14-type-collisions", schema, []any{doc}, fmt.Sprintf("nested-titles #%d from-title=%v", ti, fromTitle))
+				pc.Cfg.StructNameFromTitle = fromTitle
+				if ti%2 == 1 {
+					pc.Cfg.RootType = "" // the root is then named from its own title
+				}
+				pcs = append(pcs, pc)
+			}
+		}
 		// three definitions whose names collide after normalisation, one of them reached FIRST through a $ref inside
 		// another that is still being generated (every ordered pair i -> j), plus a chain i -> j -> k
 		pcs = append(pcs, collisionThroughRefsCases("c14-type-collisions-through-refs")...)
